@@ -164,7 +164,7 @@ pub open spec fn emit_tag_cur(a: AbsTok) -> AbsTok {
 }
 pub open spec fn emit_tag(a: AbsTok, next: State) -> AbsTok { emit_tag_cur(st(a, next)) }
 pub open spec fn start_cr(a: AbsTok) -> AbsTok {
-    AbsTok { cr: Some(cr_new(a.state is AttributeValue)), ..a }
+    AbsTok { cr: Some(cr_new()), ..a }
 }
 
 // ======================================================================================
@@ -665,9 +665,11 @@ pub open spec fn pre_step(a0: AbsTok, c: char) -> AbsTok {
 }
 #[verifier::opaque]
 pub open spec fn spec_step(a0: AbsTok, c: char) -> AbsTok {
-    let a = pre_step(a0, c);
-    if a.cr.is_some() { cr_step(a, c) }
+    // a character reference in progress reads the character itself (what it consumes is never a line break;
+    // what it does not consume is handed to the return state, which counts it)
+    if a0.cr.is_some() { cr_step(a0, c) }
     else {
+        let a = pre_step(a0, c);
         match a.state {
             State::MarkupDeclarationOpen => s_mdo(a, c),
             State::AfterDoctypeName => s_after_doctype_name(a, c),
